@@ -115,13 +115,14 @@ PROPS['C10'] = {
 
 PROPS['C07'] = {
     'level': 'proof', 'claimed': True,
-    'claim': 'unbounded proof, with symbolic thresholds (so values equal to the threshold are cases of the proof), that the list of branches handed to RemoveEdges by CollapseShortBranches / CollapseLowSupport / CollapseTopoDepth is exactly the set of branches satisfying the documented criterion (length <= l; support present and < s; min <= topological depth <= max): every listed branch satisfies it and every branch satisfying it is listed; collapse by support never asks for tip removal',
-    'level_note': 'relative to the assumed contract of Edges (elements non-nil); RemoveEdges itself (contraction, skip rules for tips and root-adjacent branches) and resolveRecur are not yet under contract, so "removes exactly" is decided for the selection, not yet for the contraction',
+    'claim': 'unbounded proof, with symbolic thresholds (so values equal to the threshold are cases of the proof), that RemoveEdges applies its skip rules and performs the documented pointer surgery per contracted branch, and that the list of branches handed to RemoveEdges by CollapseShortBranches / CollapseLowSupport / CollapseTopoDepth is exactly the set of branches satisfying the documented criterion (length <= l; support present and < s; min <= topological depth <= max): every listed branch satisfies it and every branch satisfying it is listed; collapse by support never asks for tip removal',
+    'level_note': 'relative to the assumed contract of Edges (elements are live branches in fresh storage), the thin assumed contract of ReinitInternalIndexes, io.ExitWithMessage never returning, and the representation invariants INV1, INV2, OWN, LIVEBR as preconditions (DESIGN 11.3). RemoveEdges: never contracts a tip branch (zeroes its length on request only), contracts a branch next to a degree-2 end on request only, re-points and re-attaches every other neighbour of the lower end under the upper end, empties the lower end, and its frame excludes supports, names, comments and the lengths of inner branches',
     'packages': ['./tree', './hashmap'],
-    'functions': ['(*tree.Tree).CollapseLowSupport', '(*tree.Tree).CollapseShortBranches', '(*tree.Tree).CollapseTopoDepth'],
+    'functions': ['(*tree.Tree).CollapseLowSupport', '(*tree.Tree).CollapseShortBranches', '(*tree.Tree).CollapseTopoDepth',
+                  '(*tree.Tree).RemoveEdges', '(*tree.Tree).unconnectNode', '(*tree.Node).delNeighbor', '(*tree.Node).NodeIndex'],
     'trusted_base': TB_COMMON,
     'assumptions': A_COMMON,
-    'not_decided': ['RemoveEdges contraction step and its skip rules', 'Resolve / resolveRecur', 'absent lengths (-1) are <= any non-negative threshold: the criterion is applied to the stored value as the code documents'],
+    'not_decided': ['that the contraction removes exactly one split and keeps the others (L3 of lemmas/GRAPH.md)', 'Resolve / resolveRecur', 'absent lengths (-1) are <= any non-negative threshold: the criterion is applied to the stored value as the code documents'],
 }
 
 PROPS['C14'] = {
@@ -261,7 +262,8 @@ PROPS['C03'] = {
                   '(*tree.Node).delNeighbor', '(*tree.Tree).delNode', '(*tree.Node).NodeIndex', '(*tree.Node).EdgeIndex',
                   ('(*tree.Tree).removeTip', {'match': [r'^return\.when_the_suppressed', r'^inv']}), ('(*tree.Tree).edgesRecur', {'match': [r'^post', r'^inv']}),
                   ('(*tree.Tree).internalEdgesRecur', {'match': [r'^post', r'^inv']}),
-                  ('(*tree.Tree).InternalEdges', {'match': [r'^post', r'^inv']})],
+                  ('(*tree.Tree).InternalEdges', {'match': [r'^post', r'^inv']}),
+                  '(*tree.Tree).RemoveEdges', '(*tree.Tree).unconnectNode'],
     'trusted_base': TB_COMMON,
     'assumptions': A_COMMON,
     'not_decided': ['acyclicity / connectivity after each surgery (A-GRAPH: lemmas L1-L9)', 'counting clauses (branches = nodes - 1; all = internal + external)', 'global symmetric adjacency as a quantified invariant'],
